@@ -1145,6 +1145,18 @@ pub fn routes_behaviour(r: &mut Rng, t: &mut Trace) {
             }
         }
     }
+    // dust asks over multi-hop routes: a pair's reverse quote floors to zero where the asked asset is the cheap one, and
+    // the router's reverse quote must still be the composition of the pair quotes (zero stays zero)
+    for start in assets.iter() {
+        for hops in 2..=3usize {
+            for route in chains_from(&w, start, hops).iter().take(3) {
+                for amount in [0u128, 1, 2, 3] {
+                    t.run(&mut w, json!({"op": "q_router_rev_fold", "amount": st(amount), "operations": route_ops(route)}));
+                }
+                t.run(&mut w, json!({"op": "q_router_sim_fold", "amount": st(1), "operations": route_ops(route)}));
+            }
+        }
+    }
     // last (the router is not empty afterwards): somebody sends assets to the router; its quotes must still be the
     // hop-by-hop composition of the pair queries, forward and reverse, for routes through the assets it now holds,
     // and a route executed now still delivers at least its minimum
